@@ -35,7 +35,8 @@ REPO_TESTS = {"files": ["tests/core/test_fog.py", "tests/core/test_hexary_trie_w
 FLOORS = {
     "quick": {"steps": 20000, "queries": 100000, "commute_checks": 2000, "rejections": 3000,
               "kind_ext": 1000, "kind_branch": 1000, "kind_mixed": 1000, "kind_leaf": 1000, "kind_mark": 500,
-              "public_enumerations": 20000, "nested_with_3_lengths": 100, "nested_parent_not_shortest": 50},
+              "public_enumerations": 20000, "nested_with_3_lengths": 100, "nested_parent_not_shortest": 50,
+              "kind_selfseg": 500},
     "thorough": {"steps": 200000, "queries": 1000000, "commute_checks": 20000, "rejections": 30000,
                  "kind_ext": 10000, "kind_branch": 10000, "kind_mixed": 10000, "kind_leaf": 10000,
                  "kind_mark": 5000, "public_enumerations": 200000, "nested_with_3_lengths": 1000,
@@ -169,7 +170,7 @@ def run_case(case, ctx):
                 others = [q for q in sm if q != p]
                 if others:
                     q = others[step[1] % len(others)]
-                    s2 = [(5,), (6, 7)]
+                    s2 = [(5,), (6, 7)] if step[1] % 7 else [()]
                     a = cut(fog.explore, p, segs)
                     a = cut(a.explore, q, s2)
                     b = cut(fog.explore, q, s2)
@@ -274,10 +275,13 @@ def gen_case(rnd, maxsteps=12):
     steps = []
     for _ in range(rnd.randint(1, maxsteps)):
         kind = rnd.choice(["leaf", "ext", "ext", "branch", "branch", "mixed", "mixed", "mark",
-                           "bad_unknown", "bad_dup", "bad_nested"])
+                           "bad_unknown", "bad_dup", "bad_nested", "selfseg"])
         i = rnd.randrange(1000)
         if kind == "leaf":
             steps.append(["explore", i, [], "leaf"])
+        elif kind == "selfseg":
+            # the single EMPTY continuation: the prefix is replaced by itself, nothing changes
+            steps.append(["explore", i, [[]], "selfseg"])
         elif kind == "ext":
             steps.append(["explore", i, [[rnd.randrange(16) for _ in range(rnd.randint(1, 4))]], "ext"])
         elif kind == "branch":
